@@ -207,8 +207,13 @@ func (b *TrieBucket) Suggest(prefix string, limit int) (rs []string) {
 
 // FindValuesByRegexp returns values by regexp expression.
 func (b *TrieBucket) FindValuesByRegexp(rp *regexp.Regexp, ids []uint32) []uint32 {
-	literalPrefix, _ := rp.LiteralPrefix()
-	literalPrefixByte := strutil.String2ByteSlice(literalPrefix)
+	// NOTE: regexp match is an unanchored search(same as memory store which matches each key), the literal prefix
+	// of the expression is a prefix of the key only if the expression is anchored at the beginning of the text.
+	var literalPrefixByte []byte
+	if strings.HasPrefix(rp.String(), "^") {
+		literalPrefix, _ := rp.LiteralPrefix()
+		literalPrefixByte = strutil.String2ByteSlice(literalPrefix)
+	}
 	for _, kv := range b.kvs {
 		itr := kv.tree.NewPrefixIterator(literalPrefixByte)
 		for itr.Valid() {
